@@ -105,6 +105,24 @@ def check_case(ctx, cs, edit_back=False):
             ok, got = _try(ctx, "exchange.import_json", tg, small, lambda: exchange.import_json(fn))
             if ok:
                 imported_matches(ctx, "exchange.import_json", tg, small, got, o["imp"])
+            # the same file written by another program: the optional "count" entry left out, the keys in another order, other
+            # indentation - every shape is read
+            def rewritten():
+                doc = json.load(open(fn))
+
+                def rev(x):
+                    if isinstance(x, dict):
+                        return {k: rev(x[k]) for k in reversed(list(x.keys())) if k != "count"}
+                    if isinstance(x, list):
+                        return [rev(t) for t in x]
+                    return x
+                fn_b = os.path.join(d, "x_rewritten.json")
+                with open(fn_b, "w") as fb:
+                    fb.write(json.dumps(rev(doc), indent=1) + "\n\n")
+                return exchange.import_json(fn_b)
+            ok, got = _try(ctx, "exchange.import_json", tg + ["rewritten_file"], small, rewritten)
+            if ok:
+                imported_matches(ctx, "exchange.import_json", tg + ["rewritten_file"], small, got, o["imp"])
                 # sampling density round trip
                 for k, g in enumerate(got):
                     ss = g.sample_size
@@ -170,6 +188,18 @@ def check_case(ctx, cs, edit_back=False):
                         pts, su, sv = r
                         if [su, sv] != shapes[0]["size"] or not close_seq(pts, F(o["txt"]), 1e-12):
                             ctx.violate("exchange.import_txt", tg + ["two_dimensional"], small, {"sizes": [su, sv]})
+                    # the same file with an empty line before and after the rows and trailing blanks on a row
+                    def padded():
+                        fn2b = os.path.join(d, "p2_padded.txt")
+                        rows = open(fn2).read().strip().split("\n")
+                        with open(fn2b, "w") as fb:
+                            fb.write("\n" + "\n".join(rows[:1] + [rows_ + "  " for rows_ in rows[1:]]) + "\n\n")
+                        return exchange.import_txt(fn2b, two_dimensional=True)
+                    ok, r = _try(ctx, "exchange.import_txt", tg + ["two_dimensional", "blank_lines"], small, padded)
+                    if ok:
+                        pts, su, sv = r
+                        if [su, sv] != shapes[0]["size"] or not close_seq(pts, F(o["txt"]), 1e-12):
+                            ctx.violate("exchange.import_txt", tg + ["two_dimensional", "blank_lines"], small, {"sizes": [su, sv], "expected": shapes[0]["size"]})
             fn3 = os.path.join(d, "p.csv")
             ok, _ = _try(ctx, "exchange.export_csv", tg, small, lambda: exchange.export_csv(ob, fn3, point_type="ctrlpts"))
             if ok:
